@@ -55,6 +55,19 @@ CFGS = {
     "solo_rw1_nf0": ("P_rw1", dict(SoloOn="TRUE", NF=0), "Refines SoloProgress"),
     "solo_rcust": ("P_rcust", dict(SoloOn="TRUE", MaxObj=6, NAddr=4), "Refines SoloProgress"),
 }
+# liveness: termination of every operation under weak fairness (temporal property, no state constraint)
+LIVE = {"live_rw1": ("P_rw1", {}), "live_rw1_nf0": ("P_rw1", dict(NF=0)), "live_lfsw": ("P_lfsw", dict(MaxObj=5)),
+        "live_churn": ("P_churn", dict(MaxObj=3)), "live_2c_nf0": ("P_2c", dict(Conts="{1, 2}", NF=0, NAddr=4, MaxObj=5)),
+        "live_rcust": ("P_rcust", dict(MaxObj=6, NAddr=4)),
+        "live_bug_wait": ("P_rw1", dict(NF=0, Bug='"wait_for_help"'))}
+for name, (prog, over) in LIVE.items():
+    c = dict(BASE)
+    c.update(over)
+    with open(os.path.join(SPEC, "MC_%s.cfg" % name), "w") as f:
+        f.write("SPECIFICATION FairSpec\nCONSTANTS\n  Prog <- %s\n" % prog)
+        for k, v in c.items():
+            f.write("  %s = %s\n" % (k, v))
+        f.write("PROPERTY Termination\nCHECK_DEADLOCK FALSE\n")
 for name, (prog, over, inv) in CFGS.items():
     c = dict(BASE)
     c.update(over)
@@ -63,4 +76,4 @@ for name, (prog, over, inv) in CFGS.items():
         for k, v in c.items():
             f.write("  %s = %s\n" % (k, v))
         f.write("INVARIANTS %s\nCHECK_DEADLOCK FALSE\n" % inv)
-print(len(CFGS), "configurations written")
+print(len(CFGS) + len(LIVE), "configurations written")
